@@ -9,7 +9,10 @@
    O <root> <first|-> <n> {<ref> <first|-> <next|-> <fail>}   outline walker
    X <obj> <obj> <obj> <rawLen> <datahex>                xref stream check + decode
    G <ref> <nx> {<num> <F|S<s>|D<sobj>>} <nm> {<num> <sobj>}   object stream get (ObjStmGet.get_in)
-     sobj: v | r<n> | s<id>[:<dep>]*  *)
+   J <N> <First> <number> <len> <k> {<int> <endpos>} <m> {<okoffset>}   object stream index (ObjStmIndex.objstm_find)
+   D <start> <n> {<ref> <n|r<t>|e|m|k[:<kid>]*>}          typed decode through references (DecodePath.decode_in)
+   N <tokens: a n [ ] < >>                               object nesting (Nest.read_object)
+     sobj: v | r<n> | s<id>[:<dep>]* ; a member may also be m<len>: stream-shaped with /Length len 0 R *)
 open Wire
 open Datatypes
 
@@ -203,13 +206,72 @@ let run id kind fs =
        let rec gom k fs acc =
          if k = 0 then Stdlib.List.rev acc else
            match fs with
-           | n :: o :: tl -> gom (k - 1) tl ((n_of_string n, sobj o) :: acc)
+           | n :: o :: tl ->
+             let m = if o.[0] = 'm' then ObjStmGet.MStreamShaped (n_of_string (tail1 o)) else ObjStmGet.MObj (sobj o) in
+             gom (k - 1) tl ((n_of_string n, m) :: acc)
            | _ -> failwith "bad G members" in
        let mem = gom (int_of_string nm) rest [] in
        (match ObjStmGet.get_in xr mem (n_of_string r) with
         | Res.Ok _ -> Printf.printf "%s ok\n" id
         | Res.Err c -> Printf.printf "%s %s\n" id (cls_str c))
      | _ -> failwith "bad G case")
+  | "J", no :: fo :: number :: len :: nints :: rest ->
+    let dval t = if t.[0] = 'i' then ObjStmIndex.DInt (z_of_string (tail1 t)) else ObjStmIndex.DOther in
+    let rec goi k fs acc =
+      if k = 0 then (Stdlib.List.rev acc, fs) else
+        match fs with
+        | v :: p :: tl -> goi (k - 1) tl ((z_of_string v, z_of_string p) :: acc)
+        | _ -> failwith "bad J ints" in
+    let (ints, rest) = goi (int_of_string nints) rest [] in
+    let oks = match rest with
+      | nok :: tl -> let (l, _) = take (int_of_string nok) tl in Stdlib.List.map int_of_string l
+      | [] -> [] in
+    let len = int_of_string len in
+    (match ObjStmIndex.objstm_find (dval no) (dval fo) ints Res.Malformed (z_of_string number) with
+     | Res.Err c -> Printf.printf "%s %s\n" id (cls_str c)
+     | Res.Ok ObjStmIndex.FNull -> Printf.printf "%s null\n" id
+     | Res.Ok (ObjStmIndex.FReadAt off) ->
+       (* what ReadObject finds at that offset of the data is decided by the
+          data (the harness lists the offsets where an object starts) *)
+       let s = string_of_z off in
+       let big = Stdlib.String.length s > 9 in
+       let o = if big then max_int else int_of_string s in
+       if o > len then Printf.printf "%s other\n" id
+       else if Stdlib.List.mem o oks then Printf.printf "%s ok\n" id
+       else Printf.printf "%s mal\n" id)
+  | "D", start :: n :: rest ->
+    let rec go k fs acc =
+      if k = 0 then Stdlib.List.rev acc else
+        match fs with
+        | r :: g :: tl ->
+          let g' = match g.[0] with
+            | 'n' -> DecodePath.DNull
+            | 'r' -> DecodePath.DRef (n_of_string (tail1 g))
+            | 'e' -> DecodePath.DErr (Res.IO (n_of_int 1))
+            | 'm' -> DecodePath.DErr Res.Malformed
+            | 'k' ->
+              let parts = Stdlib.List.filter (fun x -> x <> "") (Stdlib.String.split_on_char ':' (tail1 g)) in
+              DecodePath.DNode (Stdlib.List.map n_of_string parts)
+            | _ -> failwith "bad dnode" in
+          go (k - 1) tl ((n_of_string r, g') :: acc)
+        | _ -> failwith "bad D case" in
+    let g = go (int_of_string n) rest [] in
+    (match DecodePath.decode_in g (n_of_string start) with
+     | DecodePath.DOk s -> Printf.printf "%s ok %d\n" id (int_of_nat s.DecodePath.gets)
+     | DecodePath.DCycle s -> Printf.printf "%s cycle %d\n" id (int_of_nat s.DecodePath.gets)
+     | DecodePath.DDepth s -> Printf.printf "%s depth %d\n" id (int_of_nat s.DecodePath.gets)
+     | DecodePath.DGetErr (c, s) -> Printf.printf "%s %s %d\n" id (cls_str c) (int_of_nat s.DecodePath.gets)
+     | DecodePath.DFuel -> Printf.printf "%s fuel\n" id)
+  | "N", ts :: _ ->
+    let ts = if ts = "-" then "" else ts in
+    let toks = Stdlib.List.init (Stdlib.String.length ts) (fun i ->
+      match ts.[i] with
+      | 'a' -> Nest.TA | 'n' -> Nest.TN | '[' -> Nest.TAO | ']' -> Nest.TAC
+      | '<' -> Nest.TDO | '>' -> Nest.TDC | _ -> failwith "bad token") in
+    (match Nest.read_object toks with
+     | Res.Ok ([], _) -> Printf.printf "%s ok\n" id
+     | Res.Ok (_, _) -> Printf.printf "%s mal\n" id      (* endobj expected *)
+     | Res.Err c -> Printf.printf "%s %s\n" id (cls_str c))
   | _ -> Printf.printf "%s badcase\n" id
 
 let () =
